@@ -137,6 +137,15 @@ theorem fallback_rate_below_min_witness :
       = .ok (0, true, 0) := by
   constructor <;> rfl
 
+/-- AUDIT (general form of `fallback_rate_below_min_witness`): in fallback mode
+(`increase_factor_per_second = 0`) the configured minimum rate is never read — the result is the
+same for every value of `min_funding_factor_per_second`. -/
+theorem fallback_ignores_min {W U : Nat} (p : FundingParams) (m : Nat) (cur : Int) (dur l s : Nat)
+    (hinc : p.inc = 0) :
+    nextFundingFactor W U { p with minF := m } cur dur l s = nextFundingFactor W U p cur dur l s := by
+  unfold nextFundingFactor
+  simp only [hinc, and_true, if_true]
+
 /-- one funding update adds the (unsigned) deltas of its report: no index ever decreases. -/
 theorem indices_monotone {W U adj : Nat} {p : FundingParams} {st st' : FundingState} {dur pl ps : Nat}
     {r : FundingReport} (h : updateFunding W U adj p st dur pl ps = .ok (st', r)) :
@@ -334,5 +343,83 @@ example : nextFundingFactor 64 (10 ^ 9) ⟨10 ^ 9, 2 * 10 ^ 7, 0, 0, 10 ^ 6, 5, 
     (25000 * 10 ^ 9) (50000 * 10 ^ 9) = .ok (1000000, false, 0) := by rfl
 example : unpackFunding 64 (10 ^ 9) 10000 8156165899989 7901279999996 20624852318 true = some 525698405 := by rfl
 example : (FundingParams.change ⟨0, 0, 0, 0, 0, 0, 5, 3⟩ 7 10 9 2) = .decrease := by decide
+
+/-! #### audit additions -/
+/-- a successful ADAPTIVE update with non-zero deltas (longs 50000 vs shorts 25000 USD, one hour,
+token prices 2000 / 3): hypotheses of `indices_monotone` / `update_rate_le_max`. -/
+example : updateFunding 64 (10 ^ 9) 10000 ⟨10 ^ 9, 20, 10, 0, 10, 1, 5 * 10 ^ 7, 0⟩
+    ⟨⟨30000 * 10 ^ 9, 20000 * 10 ^ 9, 15000 * 10 ^ 9, 10000 * 10 ^ 9⟩, ⟨5, 6, 7, 8⟩, ⟨1, 2, 3, 4⟩, 0⟩ 3600 2000 3
+    = .ok (⟨⟨30000 * 10 ^ 9, 20000 * 10 ^ 9, 15000 * 10 ^ 9, 10000 * 10 ^ 9⟩,
+            ⟨180005, 120000006, 7, 8⟩, ⟨1, 2, 216003, 96000004⟩, 10⟩,
+           ⟨10, ⟨180000, 120000000, 0, 0⟩, ⟨0, 0, 216000, 96000000⟩⟩) := by decide +kernel
+example : ((10 : Int).natAbs ≤ 10) ∧ ((10 : Nat) = 0 → (10 : Int) = 0) :=
+  update_rate_le_max (W := 64) (U := 10 ^ 9) (adj := 10000) (p := ⟨10 ^ 9, 20, 10, 0, 10, 1, 5 * 10 ^ 7, 0⟩)
+    (st := ⟨⟨30000 * 10 ^ 9, 20000 * 10 ^ 9, 15000 * 10 ^ 9, 10000 * 10 ^ 9⟩, ⟨5, 6, 7, 8⟩, ⟨1, 2, 3, 4⟩, 0⟩)
+    (dur := 3600) (pl := 2000) (ps := 3)
+    (st' := ⟨⟨30000 * 10 ^ 9, 20000 * 10 ^ 9, 15000 * 10 ^ 9, 10000 * 10 ^ 9⟩,
+            ⟨180005, 120000006, 7, 8⟩, ⟨1, 2, 216003, 96000004⟩, 10⟩)
+    (r := ⟨10, ⟨180000, 120000000, 0, 0⟩, ⟨0, 0, 216000, 96000000⟩⟩) (by decide +kernel)
+/-- a successful FALLBACK update where the SHORTS pay (15000 vs 25000): stored rate 0. -/
+example : updateFunding 64 (10 ^ 9) 10000 ⟨10 ^ 9, 2 * 10 ^ 7, 0, 0, 10 ^ 6, 5, 0, 0⟩
+    ⟨⟨10000 * 10 ^ 9, 5000 * 10 ^ 9, 15000 * 10 ^ 9, 10000 * 10 ^ 9⟩, Quad.zero, Quad.zero, 0⟩ 3600 2000 3
+    = .ok (⟨⟨10000 * 10 ^ 9, 5000 * 10 ^ 9, 15000 * 10 ^ 9, 10000 * 10 ^ 9⟩,
+            ⟨0, 0, 18000000000, 12000000000000⟩, ⟨18000000000, 8000000000000, 0, 0⟩, 0⟩,
+           ⟨0, ⟨0, 0, 18000000000, 12000000000000⟩, ⟨18000000000, 8000000000000, 0, 0⟩⟩) := by decide +kernel
+/-- `setDeltasOne … = .ok` with a non-zero funding value; the stored next rate `7` is kept
+(`setDeltasOne_next`). -/
+example : setDeltasOne 64 (10 ^ 9) 10000
+    ⟨⟨30000 * 10 ^ 9, 20000 * 10 ^ 9, 15000 * 10 ^ 9, 10000 * 10 ^ 9⟩, Quad.zero, Quad.zero, 0⟩ true true (10 ^ 9) 2000
+    (25000 * 10 ^ 9) ⟨7, Quad.zero, Quad.zero⟩ = .ok ⟨7, ⟨166667, 0, 0, 0⟩, ⟨0, 0, 200000, 0⟩⟩ := by decide +kernel
+/-- adaptive mode with the SHORTS paying (`lps = false`, stored rate negative): second clause of
+`adaptive_payer_is_sign`, and a rate clipped at the maximum. -/
+example : nextFundingFactor 64 (10 ^ 9) ⟨10 ^ 9, 20, 10, 0, 10, 1, 5 * 10 ^ 7, 0⟩ (-6) 2
+    (25000 * 10 ^ 9) (50000 * 10 ^ 9) = .ok (10, false, -10) := by rfl
+example : (1 ≤ 10 ∧ 10 ≤ 10 ∧ (-10 : Int).natAbs ≤ 10) :=
+  rate_within_min_max_partial (W := 64) (U := 10 ^ 9) (p := ⟨10 ^ 9, 20, 10, 0, 10, 1, 5 * 10 ^ 7, 0⟩)
+    (cur := -6) (dur := 2) (l := 25000 * 10 ^ 9) (s := 50000 * 10 ^ 9) (lps := false) (by decide) (by rfl)
+/-- fallback mode with `0 < f`: all hypotheses of `fallback_larger_side_pays` (and `fallback_rate_le_max`),
+here with the rate clipped at `max = 10 ^ 6`. -/
+example : (25000 * 10 ^ 9 ≠ 50000 * 10 ^ 9) ∧ (false = true ↔ 50000 * 10 ^ 9 < 25000 * 10 ^ 9) ∧
+    (false = false ↔ 25000 * 10 ^ 9 < 50000 * 10 ^ 9) :=
+  fallback_larger_side_pays (W := 64) (U := 10 ^ 9) (p := ⟨10 ^ 9, 2 * 10 ^ 7, 0, 0, 10 ^ 6, 5, 0, 0⟩)
+    (cur := 0) (dur := 2) (f := 1000000) (nx := 0) (by rfl) (by rfl) (by decide)
+/-- `change`: the other rows of the table, and `change_increase_when_opposed` on a non-zero rate. -/
+example : (FundingParams.change ⟨0, 0, 0, 0, 0, 0, 5, 3⟩ 7 10 9 4) = .noChange ∧
+    (FundingParams.change ⟨0, 0, 0, 0, 0, 0, 5, 3⟩ 7 10 9 6) = .increase ∧
+    (FundingParams.change ⟨0, 0, 0, 0, 0, 0, 5, 3⟩ (-7) 10 9 2) = .increase := by decide
+example : (FundingParams.change ⟨0, 0, 0, 0, 0, 0, 5, 3⟩ (-7) 10 9 2) = .increase :=
+  change_increase_when_opposed _ _ _ _ _ (by decide)
+/-- a non-empty history (two successful adaptive updates and one failing attempt with price 0 in
+between): the indices strictly grow (`step_monotone`, `indices_monotone_history`). -/
+example : (runFunding 64 (10 ^ 9) 10000 ⟨10 ^ 9, 20, 10, 0, 10, 1, 5 * 10 ^ 7, 0⟩
+      ⟨Quad.zero, Quad.zero, Quad.zero, 0⟩
+      [⟨⟨30000 * 10 ^ 9, 20000 * 10 ^ 9, 15000 * 10 ^ 9, 10000 * 10 ^ 9⟩, 3600, 2000, 3⟩,
+       ⟨⟨30000 * 10 ^ 9, 20000 * 10 ^ 9, 15000 * 10 ^ 9, 10000 * 10 ^ 9⟩, 3600, 0, 3⟩,
+       ⟨⟨30000 * 10 ^ 9, 20000 * 10 ^ 9, 15000 * 10 ^ 9, 10000 * 10 ^ 9⟩, 3600, 2000, 3⟩]).fidx
+    = ⟨360000, 240000000, 0, 0⟩ := by decide +kernel
+/-- `pending_funding_defined` / `pending_funding_error_of_gt` instantiated. -/
+example : ∃ r, unpackFunding 64 (10 ^ 9) 10000 360000 180000 (10 ^ 12) true = some r :=
+  pending_funding_defined true (by decide) (by decide) (by decide) (by decide)
+example : unpackFunding 64 (10 ^ 9) 10000 360000 180000 (10 ^ 12) true = some 18000 ∧
+    unpackFunding 64 (10 ^ 9) 10000 360001 180000 (10 ^ 12) false = some 18000 ∧
+    unpackFunding 64 (10 ^ 9) 10000 360001 180000 (10 ^ 12) true = some 18001 := by decide
+example : unpackFunding 64 (10 ^ 9) 10000 180000 360000 (10 ^ 12) true = none :=
+  pending_funding_error_of_gt _ _ _ _ _ _ _ (by decide)
+/-- `pending_defined_after_history` on a concrete history (snapshot after one update: index
+180000 by the run above; one more update: 360000): ALL its hypotheses including the fit premise
+of the third conjunct hold, so a pending fee `∃ r, unpackFunding … = some r` is obtained for a
+`10 ^ 12` position (its value is `18000`, example above). -/
+example : True := by
+  have h := (pending_defined_after_history 64 (10 ^ 9) 10000 ⟨10 ^ 9, 20, 10, 0, 10, 1, 5 * 10 ^ 7, 0⟩
+    ⟨Quad.zero, Quad.zero, Quad.zero, 0⟩
+    [⟨⟨30000 * 10 ^ 9, 20000 * 10 ^ 9, 15000 * 10 ^ 9, 10000 * 10 ^ 9⟩, 3600, 2000, 3⟩]
+    [⟨⟨30000 * 10 ^ 9, 20000 * 10 ^ 9, 15000 * 10 ^ 9, 10000 * 10 ^ 9⟩, 3600, 2000, 3⟩]
+    true true (10 ^ 12) (by decide) (by decide)).2.2.1 (by decide +kernel)
+  obtain ⟨_, _⟩ := h
+  trivial
+/-- `fallback_ignores_min` instantiated: minimum 777 instead of 5, same result. -/
+example : nextFundingFactor 64 (10 ^ 9) ⟨10 ^ 9, 2 * 10 ^ 7, 0, 0, 10 ^ 6, 777, 0, 0⟩ 0 2
+    (25000 * 10 ^ 9) (50000 * 10 ^ 9) = .ok (1000000, false, 0) :=
+  (fallback_ignores_min ⟨10 ^ 9, 2 * 10 ^ 7, 0, 0, 10 ^ 6, 5, 0, 0⟩ 777 0 2 _ _ rfl).trans (by rfl)
 
 end Gmx.C12
